@@ -250,9 +250,10 @@ class C14(Prop):
 
     # ---- cases ----------------------------------------------------------------------------------------------------------------
     def cases(self, rng, n, tier):
-        for i in range(len(self.table)):
+        for r in self.table:
             for bits in range(128):
-                yield {'kind': 'guard', 'route': i, 'caller': {f: bool(bits >> j & 1) for j, f in enumerate(CALLER_FIELDS)}}
+                yield {'kind': 'guard', 'route': [r['method'].upper(), r['path']],
+                       'caller': {f: bool(bits >> j & 1) for j, f in enumerate(CALLER_FIELDS)}}
         for h in MUTATORS:
             for who in WHO:
                 if h == 'close_batch' and who == 'owner':
@@ -273,7 +274,7 @@ class C14(Prop):
 
     def model_lines(self, c):
         if c['kind'] == 'guard':
-            return ['guard %d %s' % (c['route'], ' '.join('1' if c['caller'][f] else '0' for f in CALLER_FIELDS))]
+            return ['guard %d %s' % (self._index(c['route']), ' '.join('1' if c['caller'][f] else '0' for f in CALLER_FIELDS))]
         m = MUTATORS[c['handler']][0]
         return ['mut %s %d %d %d' % (m, c['who'] == 'owner', c['token'] == 'known', c['payload'] == 'empty')]
 
@@ -284,8 +285,17 @@ class C14(Prop):
             self._cache[k] = self._guard_run(c)
         return self._cache[k]
 
+    def _index(self, route):
+        for i, r in enumerate(self.table):
+            if [r['method'].upper(), r['path']] == list(route):
+                return i
+        return 99999
+
     def _guard_run(self, c):
-        r = self.table[c['route']]
+        i = self._index(c['route'])
+        if i == 99999:
+            return None, 'no-such-route', []
+        r = self.table[i]
         method, path_t = r['method'].upper(), r['path']
         cl = c['caller']
         key = (method, path_t)
@@ -376,10 +386,12 @@ class C14(Prop):
         if out[0].startswith('IMPL-EXC'):
             return out[0]
         if c['kind'] == 'guard':
-            r = self.table[c['route']]
+            entered, line, writes = self._guard(c)
+            if line == 'no-such-route':
+                return None      # a stale corpus case: the route no longer exists
+            r = self.table[self._index(c['route'])]
             method, path_t = r['method'].upper(), r['path']
             cls = py_required(method, path_t)
-            entered, line, writes = self._guard(c)
             who = ','.join(f for f in CALLER_FIELDS if c['caller'][f]) or 'anonymous'
             if entered is None:
                 return f'unguarded: {method} {path_t}: registered handler {r["handler"]} cannot be inspected ({line})'
@@ -405,8 +417,7 @@ class C14(Prop):
             if c['handler'] == 'create_update' and 'did not change' in msg:
                 return KEY_CREATE
         if c['kind'] == 'guard':
-            r = self.table[c['route']]
-            return f'{msg.split(":", 1)[0]} {r["method"].upper()} {r["path"]}'
+            return f'{msg.split(":", 1)[0]} {c["route"][0]} {c["route"][1]}'
         return json.dumps(c, sort_keys=True)
 
     def classify(self, c, out):
